@@ -40,7 +40,7 @@ def shards(tier, seed):
 
 
 def floors(tier):
-    return {"inverse:calls": 7000 if tier == "quick" else 200000, "clifford_from_stabilizer:calls": 2000,
+    return {"inverse:calls": 7000 if tier == "quick" else 200000, "clifford_from_stabilizer:calls": 2000, "graph_tableau:asked_again_after_use": 300,
             "graph_tableau:calls": 300, "inverse:with_Y_entries": 1000, "inverse:with_negative_sign": 1000,
             "inverse:circuit_has_P": 500, "reverse_run:calls": 2000, "dense_crosscheck": 200, "inverse:low_sign_presentations": 300}
 
@@ -202,3 +202,22 @@ def check_graph(A, order, ctx):
         ctx.count("dense_crosscheck")
         if not np.allclose(dense.projector_of_group(gq.clifford_stab_ptab(ct)), dense.ket2dm(dense.graph_state_vec(A)), atol=1e-9):
             ctx.violation("clifford_from_graph_wrong_state_dense", case, {}, key="graph_state")
+    # ---- the tableau handed out is the caller's: it is used as a simulation state (gates act in place), then the same graph
+    # (same object, and an equal fresh one) is asked for again - the answer must still be the graph state
+    import graphiq.backends.stabilizer.functions.transformation as tr
+    try:
+        q = int(A.sum()) % n
+        tr.hadamard_gate(ct, q)
+        tr.phase_gate(ct, q)
+        if n > 1:
+            tr.cnot_gate(ct, q, (q + 1) % n)
+        for which, gg in (("same graph object", g), ("equal graph, new object", gq.nx_from_adj(A, order))):
+            ct2 = get_clifford_tableau_from_graph(gg)
+            ctx.count("graph_tableau:asked_again_after_use")
+            probs = pauli.check_clifford_tableau(*gq.clifford_snapshot(ct2))
+            if probs or not gq.clifford_stab_ptab(ct2).same_group(ref):
+                ctx.violation("clifford_from_graph_depends_on_earlier_calls", case, {"asked_with": which, "problems": probs[:2],
+                                                                                      "got": gq.clifford_stab_ptab(ct2).labels()[:8]}, key="graph_history")
+                break
+    except Exception as e:
+        ctx.violation("graph_tableau_raises", case, {"exception": f"{type(e).__name__}: {e}"[:300], "step": "asked again after use"}, key="graph_exc")
